@@ -388,6 +388,11 @@ def run(ctx):
         b = pm.match("M_i.line_number", src) if src is not None else None
         good = (isinstance(loop, ast.For) and U(loop.iter) in kernel_names and b is not None
                 and U(loop.target) == U(b["M_i"]))
+        if not good and isinstance(loop, ast.For) and isinstance(loop.iter, ast.Name) and b is not None and U(loop.target) == U(b["M_i"]):
+            # the roots held in a local: the kernel lines minus lines without outgoing edges (they start no path)
+            from . import c16 as _c16
+            if any(_c16.harmless_root_list(f, loop.iter.id, k_) is True for k_ in kernel_names):
+                good = True
         if good:
             ctx.node_ok("R3", f, loop, "for %s in %s: roots = all kernel lines" % (U(loop.target), U(loop.iter)))
         else:
